@@ -1,6 +1,6 @@
 // Correspondence harness for C33 (path/resolver): random UnixFS trees (basic and
 // HAMT-sharded directories of several widths, files, raw leaves, symlinks, empty
-// directories; depth <= 4) are written to an offline block service; every existing
+// directories; depth <= 4) are written to an offline block service over a blockstore that refuses requests on a cancelled context (as bitswap / remote stores do); every existing
 // path, a wrong segment at every position of it, near-miss names and paths that
 // continue below a file are resolved with the real resolver (block-service fetcher,
 // UnixFS reifier — the gateway's configuration) through ResolveToLastNode,
@@ -15,14 +15,19 @@ import (
 	"strings"
 	"testing"
 
+	"github.com/ipfs/boxo/blockservice"
+	"github.com/ipfs/boxo/blockstore"
+	offline "github.com/ipfs/boxo/exchange/offline"
 	bsfetcher "github.com/ipfs/boxo/fetcher/impl/blockservice"
 	"github.com/ipfs/boxo/ipld/merkledag"
-	mdtest "github.com/ipfs/boxo/ipld/merkledag/test"
 	ft "github.com/ipfs/boxo/ipld/unixfs"
 	"github.com/ipfs/boxo/ipld/unixfs/hamt"
 	"github.com/ipfs/boxo/path"
 	"github.com/ipfs/boxo/path/resolver"
+	blocks "github.com/ipfs/go-block-format"
 	"github.com/ipfs/go-cid"
+	ds "github.com/ipfs/go-datastore"
+	dssync "github.com/ipfs/go-datastore/sync"
 	ipld "github.com/ipfs/go-ipld-format"
 	"github.com/ipfs/go-unixfsnode"
 	dagpb "github.com/ipld/go-codec-dagpb"
@@ -128,12 +133,12 @@ func (g *gen) tree(depth int, budget *int) *tnode {
 	}
 	t := &tnode{}
 	nEntries := g.n(6)
-	if g.chance(3) {
+	if g.chance(2) {
 		t.kind = "hamt"
-		t.width = []int{8, 8, 16, 32, 64, 256}[g.n(6)]
+		t.width = []int{8, 8, 8, 16, 16, 32, 64, 256}[g.n(8)]
 		nEntries = 1 + g.n(7)
-		if g.chance(3) {
-			nEntries = 12 + g.n(30) // several levels of shards at the small widths
+		if g.chance(2) {
+			nEntries = 12 + g.n(30) // several levels of shards at the small widths: names live in child shard blocks
 		}
 	} else {
 		t.kind = "dir"
@@ -333,8 +338,37 @@ func (w *world) observe(root *tnode, segs []string) (observation, bool) {
 	return o, true
 }
 
+// ctxBlockstore honours the request context the way bitswap or a remote store does:
+// nothing is served on a context that is already done.  (A map datastore ignores the
+// context, which hides every use of a cancelled traversal context by the resolver.)
+type ctxBlockstore struct {
+	blockstore.Blockstore
+}
+
+func (b ctxBlockstore) Get(ctx context.Context, c cid.Cid) (blocks.Block, error) {
+	if err := ctx.Err(); err != nil {
+		return nil, err
+	}
+	return b.Blockstore.Get(ctx, c)
+}
+
+func (b ctxBlockstore) GetSize(ctx context.Context, c cid.Cid) (int, error) {
+	if err := ctx.Err(); err != nil {
+		return 0, err
+	}
+	return b.Blockstore.GetSize(ctx, c)
+}
+
+func (b ctxBlockstore) Has(ctx context.Context, c cid.Cid) (bool, error) {
+	if err := ctx.Err(); err != nil {
+		return false, err
+	}
+	return b.Blockstore.Has(ctx, c)
+}
+
 func newWorld() *world {
-	bs := mdtest.Bserv()
+	bstore := ctxBlockstore{blockstore.NewBlockstore(dssync.MutexWrap(ds.NewMapDatastore()))}
+	bs := blockservice.New(bstore, offline.Exchange(bstore))
 	fc := bsfetcher.NewFetcherConfig(bs)
 	fc.PrototypeChooser = dagpb.AddSupportToChooser(bsfetcher.DefaultPrototypeChooser)
 	return &world{ctx: context.Background(), ds: merkledag.NewDAGService(bs),
@@ -367,6 +401,29 @@ func TestC33(t *testing.T) {
 			d.node = nd
 			g.must(w.ds.Add(w.ctx, nd))
 			d.id = w.idOf(nd.Cid())
+			root = d
+		case 1: // corpus: a wide sharded directory (child shard blocks) below a basic directory, as the parent of the last segment
+			big := &tnode{kind: "hamt", width: 256}
+			sh, err := hamt.NewShard(w.ds, 256)
+			g.must(err)
+			for i := 0; i < 400; i++ {
+				nm := fmt.Sprintf("file-%03d", i)
+				f := &tnode{kind: "file"}
+				f.node = merkledag.NodeWithData(ft.FilePBData([]byte(nm), uint64(len(nm))))
+				g.must(w.ds.Add(w.ctx, f.node))
+				f.id = w.idOf(f.node.Cid())
+				g.must(sh.Set(w.ctx, nm, f.node))
+				big.names, big.kids = append(big.names, nm), append(big.kids, f)
+			}
+			bn, err := sh.Node()
+			g.must(err)
+			g.must(w.ds.Add(w.ctx, bn))
+			big.node, big.id = bn, w.idOf(bn.Cid())
+			d := &tnode{kind: "dir", names: []string{"big"}, kids: []*tnode{big}}
+			nd := ft.EmptyDirNode()
+			g.must(nd.AddNodeLink("big", bn))
+			g.must(w.ds.Add(w.ctx, nd))
+			d.node, d.id = nd, w.idOf(nd.Cid())
 			root = d
 		default:
 			for root == nil || !root.isDir() {
@@ -412,8 +469,21 @@ func TestC33(t *testing.T) {
 		if ti == 0 {
 			paths = [][]string{{"f", "x"}, {"f", "x", "y"}, {"f"}, {"x"}, {}}
 		}
+		if ti == 1 {
+			paths = [][]string{{"big"}, {"big", "no-such-file"}, {"big", "file-002", "x"}}
+			for i := 0; i < 400; i += 9 {
+				paths = append(paths, []string{"big", fmt.Sprintf("file-%03d", i)})
+			}
+		}
 		var obsT []string
 		var obsJ []observation
+		hamtParent := func(p []string) bool { // the last segment is looked up in a sharded directory
+			if len(p) == 0 {
+				return false
+			}
+			d := root.walkTo(p[:len(p)-1])
+			return d != nil && d.kind == "hamt"
+		}
 		hamtOnPath := func(p []string) bool {
 			cur := root
 			for _, s := range p {
@@ -440,6 +510,12 @@ func TestC33(t *testing.T) {
 			st.Count(fmt.Sprintf("segments=%d", len(p)))
 			if hamtOnPath(p) {
 				st.Count("through-hamt")
+			}
+			if hamtParent(p) {
+				st.Count("last-segment-in-hamt/" + o.class)
+				if d := root.walkTo(p[:len(p)-1]); len(d.names) > d.width {
+					st.Count("last-segment-in-multi-level-hamt")
+				}
 			}
 		}
 		rp := map[string]any{"tree": root.coq(), "root": root.node.Cid().String(), "paths": obsJ}
